@@ -1,19 +1,24 @@
 /-
   C03 — Covariance kernels are valid, correctly parameterised kernels.
-  Property theorems only (helpers: Proofs/C03Lemmas.lean, Proofs/C03Psd.lean).  Everything is about
+  Property theorems only (helpers: Proofs/C03Lemmas.lean, Proofs/C03Psd.lean, Proofs/C03Matern.lean).  Everything is about
   the `ℝ` instance of the polymorphic model `Model/Kernels.lean` (+ `Model/C03.lean`), for every
   kernel kind, every dimension, every hyperparameter vector and every point set.
 
-  Not proved (stated as partial in the evidence): positive semi-definiteness of the three Matérn
-  profiles exp(−r), (1+r)exp(−r), (1+r+r²/3)exp(−r) themselves (Schoenberg/Bochner).  What IS proved:
-  the square exponential Gram matrix is PSD (`se_gram_posSemidef`), and PSD is preserved by every
-  construction the code applies on top of a PSD profile matrix (alpha ≥ 0, Hadamard/tensor product,
-  diagonal noise ≥ 0).
+  Positive semi-definiteness is proved for ALL FOUR radial profiles, in every dimension, for every
+  length-scale vector, every alpha ≥ 0 and every finite point set (`radial_gram_posSemidef`):
+  the square exponential through its power series and the Schur product theorem
+  (`se_gram_posSemidef`), the three Matérn profiles exp(−r), (1+r)exp(−r), (1+r+r²/3)exp(−r) as
+  non-negative scale mixtures of Gaussians (`c0_gram_posSemidef`, `c2_gram_posSemidef`,
+  `c4_gram_posSemidef`; helpers Proofs/C03Matern.lean, Proofs/C03MaternIntegrals.lean).  PSD is
+  preserved by every construction the code applies on top of a PSD profile matrix (alpha ≥ 0,
+  Hadamard/tensor product, diagonal noise ≥ 0), hence also the noisy matrices the GP factorises
+  (`radial_gramNoise_posSemidef`) and the multitask tensor kernel (`multitask_gram_posSemidef`).
 -/
 import Model.Kernels
 import Model.C03
 import Proofs.C03Lemmas
 import Proofs.C03Psd
+import Proofs.C03Matern
 
 namespace C03
 open Kernels Matrix
@@ -361,6 +366,82 @@ theorem se_gramNoise_posSemidef {n d : Nat} {alpha : ℝ} (ha : 0 ≤ alpha) (l 
     (gramMatrix (kernel Kind.se alpha (List.ofFn l)) (fun i => List.ofFn (pts i))
       + Matrix.diagonal noise).PosSemidef :=
   add_diag_psd _ (se_gram_posSemidef ha l pts) noise hn
+
+/-- [proved] The Gram matrix of EVERY radial kernel of the model (square exponential, C0, C2, C4
+    Matérn) is positive semi-definite for every dimension d, every length-scale vector, every
+    alpha ≥ 0 and every finite point set. -/
+theorem radial_gram_posSemidef (k : Kind) {n d : Nat} {alpha : ℝ} (ha : 0 ≤ alpha) (l : Fin d → ℝ)
+    (pts : Fin n → Fin d → ℝ) :
+    (gramMatrix (kernel k alpha (List.ofFn l)) (fun i => List.ofFn (pts i))).PosSemidef := by
+  have h := (profile_gram_psd k l pts).smul ha
+  have e : gramMatrix (kernel k alpha (List.ofFn l)) (fun i => List.ofFn (pts i))
+      = alpha • gramMatrix (fun x z : Fin d → ℝ =>
+          phi k (r2 (List.ofFn l) (List.ofFn x) (List.ofFn z))) pts := by
+    ext i j; simp [kernel]
+  rw [e]; exact h
+
+/-- [proved] C0 Matérn, `alpha · exp(−r)`: the Gram matrix is positive semi-definite (scale mixture of
+    Gaussians `exp(−r) = (2/√π) ∫_0^∞ e^{−x²} e^{−r²/(4x²)} dx`). -/
+theorem c0_gram_posSemidef {n d : Nat} {alpha : ℝ} (ha : 0 ≤ alpha) (l : Fin d → ℝ)
+    (pts : Fin n → Fin d → ℝ) :
+    (gramMatrix (kernel Kind.c0 alpha (List.ofFn l)) (fun i => List.ofFn (pts i))).PosSemidef :=
+  radial_gram_posSemidef Kind.c0 ha l pts
+
+/-- [proved] C2 Matérn, `alpha · (1+r) exp(−r)`: the Gram matrix is positive semi-definite. -/
+theorem c2_gram_posSemidef {n d : Nat} {alpha : ℝ} (ha : 0 ≤ alpha) (l : Fin d → ℝ)
+    (pts : Fin n → Fin d → ℝ) :
+    (gramMatrix (kernel Kind.c2 alpha (List.ofFn l)) (fun i => List.ofFn (pts i))).PosSemidef :=
+  radial_gram_posSemidef Kind.c2 ha l pts
+
+/-- [proved] C4 Matérn, `alpha · (1+r+r²/3) exp(−r)`: the Gram matrix is positive semi-definite. -/
+theorem c4_gram_posSemidef {n d : Nat} {alpha : ℝ} (ha : 0 ≤ alpha) (l : Fin d → ℝ)
+    (pts : Fin n → Fin d → ℝ) :
+    (gramMatrix (kernel Kind.c4 alpha (List.ofFn l)) (fun i => List.ofFn (pts i))).PosSemidef :=
+  radial_gram_posSemidef Kind.c4 ha l pts
+
+/-- … and every radial Gram matrix stays PSD with non-negative noise on the diagonal (the matrix the
+    GP factorises). -/
+theorem radial_gramNoise_posSemidef (k : Kind) {n d : Nat} {alpha : ℝ} (ha : 0 ≤ alpha) (l : Fin d → ℝ)
+    (pts : Fin n → Fin d → ℝ) (noise : Fin n → ℝ) (hn : ∀ i, 0 ≤ noise i) :
+    (gramMatrix (kernel k alpha (List.ofFn l)) (fun i => List.ofFn (pts i))
+      + Matrix.diagonal noise).PosSemidef :=
+  add_diag_psd _ (radial_gram_posSemidef k ha l pts) noise hn
+
+theorem c0_gramNoise_posSemidef {n d : Nat} {alpha : ℝ} (ha : 0 ≤ alpha) (l : Fin d → ℝ)
+    (pts : Fin n → Fin d → ℝ) (noise : Fin n → ℝ) (hn : ∀ i, 0 ≤ noise i) :
+    (gramMatrix (kernel Kind.c0 alpha (List.ofFn l)) (fun i => List.ofFn (pts i))
+      + Matrix.diagonal noise).PosSemidef :=
+  radial_gramNoise_posSemidef Kind.c0 ha l pts noise hn
+
+theorem c2_gramNoise_posSemidef {n d : Nat} {alpha : ℝ} (ha : 0 ≤ alpha) (l : Fin d → ℝ)
+    (pts : Fin n → Fin d → ℝ) (noise : Fin n → ℝ) (hn : ∀ i, 0 ≤ noise i) :
+    (gramMatrix (kernel Kind.c2 alpha (List.ofFn l)) (fun i => List.ofFn (pts i))
+      + Matrix.diagonal noise).PosSemidef :=
+  radial_gramNoise_posSemidef Kind.c2 ha l pts noise hn
+
+theorem c4_gramNoise_posSemidef {n d : Nat} {alpha : ℝ} (ha : 0 ≤ alpha) (l : Fin d → ℝ)
+    (pts : Fin n → Fin d → ℝ) (noise : Fin n → ℝ) (hn : ∀ i, 0 ≤ noise i) :
+    (gramMatrix (kernel Kind.c4 alpha (List.ofFn l)) (fun i => List.ofFn (pts i))
+      + Matrix.diagonal noise).PosSemidef :=
+  radial_gramNoise_posSemidef Kind.c4 ha l pts noise hn
+
+/-- [proved] The multitask tensor kernel (physical kernel × task kernel, alpha applied once) has a
+    positive semi-definite Gram matrix for every pair of radial kinds, every dimension, all length
+    scales, alpha ≥ 0 and all points (`x i` = physical coordinates, `t i` = task coordinate). -/
+theorem multitask_gram_posSemidef (kp kt : Kind) {n d : Nat} {alpha : ℝ} (ha : 0 ≤ alpha) (l : Fin d → ℝ)
+    (lt : ℝ) (x : Fin n → Fin d → ℝ) (t : Fin n → ℝ) :
+    (gramMatrix (multitask kp kt alpha (List.ofFn l) lt) (fun i => List.ofFn (x i) ++ [t i])).PosSemidef := by
+  refine multitask_gram_psd kp kt ha (List.ofFn l) lt _ ?_ ?_
+  · have e : (fun i => physPart (List.ofFn (x i) ++ [t i])) = fun i => List.ofFn (x i) := by
+      funext i; simp [physPart]
+    rw [e]
+    exact radial_gram_posSemidef kp zero_le_one l x
+  · have e : (fun i => taskPart (List.ofFn (x i) ++ [t i]))
+        = fun i => List.ofFn (fun _ : Fin 1 => t i) := by
+      funext i; simp [taskPart]
+    have e2 : [lt] = List.ofFn (fun _ : Fin 1 => lt) := by simp
+    rw [e, e2]
+    exact radial_gram_posSemidef kt zero_le_one (fun _ : Fin 1 => lt) (fun i _ => t i)
 
 /-! ### 8. Hyperparameter validation and read-back -/
 
